@@ -20,7 +20,7 @@ LEVEL = "exploration"
 RULE = ("random well-typed EEMS models (3-18 commands over all built-in data commands, CSV tables of 2-14 rows with int and float "
         "columns and missing cells; a ledger forces every command into the sample) x {original, reversed, k random permutations, "
         "metadata variant, extra-consumer variant}; distinct by (sorted command multiset up to 8, depth, max fan-out, table dtype mix, has-missing)")
-REQUIRED_COUNTERS = ["node_postconditions", "read_results_compared", "variant_runs", "shared_results_compared_bit_exact", "same_path_reruns", "netcdf_models", "csv_models", "eems2_histories"]
+REQUIRED_COUNTERS = ["numpy_scalar_parameter_models", "fuzzy_reads_compared", "node_postconditions", "read_results_compared", "variant_runs", "shared_results_compared_bit_exact", "same_path_reruns", "netcdf_models", "csv_models", "eems2_histories"]
 
 
 def post_merge(counters, tier):
@@ -66,7 +66,37 @@ def _depth_fanout(model):
     return max(depth(n) for n in by), max(fan.values() or [0])
 
 
-def _run_variant(ctx, model, d, tag, check_nodes=True):
+def _np_params(model, rng):
+    """The model with number parameters handed over as NumPy scalars of the same value (what a caller taking them from an
+    array passes to the programming interface). Returns (model, how many were converted)."""
+    out = copy.deepcopy(model)
+    n = [0]
+
+    def conv(v):
+        if isinstance(v, bool):
+            return v
+        if isinstance(v, float) and v == v and abs(v) < 1e30:
+            for t in rng.sample([numpy.float32, numpy.float64], 2):      # (half precision is not offered: its arithmetic alone loses 1e-3)
+                with numpy.errstate(all="ignore"):
+                    if float(t(v)) == v:
+                        n[0] += 1
+                        return t(v)
+        if isinstance(v, int) and abs(v) < 2 ** 31 and rng.random() < 0.5:
+            n[0] += 1
+            return rng.choice([numpy.int64, numpy.int32])(v)
+        if isinstance(v, list):
+            return [conv(x) for x in v]
+        return v
+    for c in out["commands"]:
+        if c["cmd"] in ("EEMSRead", "EEMSWrite", "PrintVars"):
+            continue
+        for k, v in list(c["args"].items()):
+            if k not in ("InFieldName", "InFieldNames", "A", "B", "Metadata", "OutFileName", "InFileName"):
+                c["args"][k] = conv(v)
+    return out, n[0]
+
+
+def _run_variant(ctx, model, d, tag, check_nodes=True, built=None, rel=1e-9):
     """Loads and runs one textual variant with the node postcondition attached. Returns {name: array} or None."""
     by = {c["result"]: c for c in model["commands"]}
     failed = []
@@ -83,8 +113,12 @@ def _run_variant(ctx, model, d, tag, check_nodes=True):
             want = []
             for v in col["data"]:
                 vv = int(v) if integer else float(v)
+                if c["args"].get("DataType") == "Fuzzy":
+                    vv = min(1.0, max(-1.0, vv))      # read as fuzzy: limited to the fuzzy range
                 want.append(None if (miss is not None and vv == (int(miss) if integer else float(miss))) else Fraction(vv))
             ctx.count("read_results_compared")
+            if c["args"].get("DataType") == "Fuzzy":
+                ctx.count("fuzzy_reads_compared")
             bad = ref.compare(value, want, exact=True) if isinstance(value, numpy.ndarray) else ("non-array", None, repr(value)[:50], None)
             if bad:
                 failed.append(("EEMSRead:%s" % bad[0], {"column": c["args"]["InFieldName"], "diff": list(bad), "args": c["args"]}))
@@ -122,7 +156,7 @@ def _run_variant(ctx, model, d, tag, check_nodes=True):
             failed.append(("%s:non-array-result" % name, {"got": repr(value)[:80]}))
             return
         try:
-            bad = ref.compare(value, want, scale=scale, rel=1e-9)
+            bad = ref.compare(value, want, scale=scale, rel=rel)
         except OverflowError:
             ctx.dontcare("%s: reference value beyond the float64 range" % name)
             return
@@ -138,7 +172,7 @@ def _run_variant(ctx, model, d, tag, check_nodes=True):
     log = []
     prog = None
     try:
-        prog = models.load(model, d, text=text)
+        prog = models.build_api(built, d) if built is not None else models.load(model, d, text=text)
         log = trace.start(on_exit=on_exit)
         trace.attach(prog)
         try:
@@ -226,6 +260,18 @@ def run_case(ctx, case):
     ctx.count("same_path_reruns")
     if second == "failed":
         return
+    if case["rseed"] % 3 != 1:
+        # built through the programming interface, number parameters given as NumPy scalars of exactly the same value: every
+        # node is judged against the reference on the inputs it received (single-precision parameter arithmetic: 1e-5)
+        npm, nconv = _np_params(model, rng)
+        if nconv:
+            ctx.count("numpy_scalar_parameter_models")
+            res = _run_variant(ctx, model, ctx.scratch(), "api-numpy-scalar-parameters", check_nodes=True, built=npm, rel=1e-5)
+            if res in ("failed", "undefined"):
+                return
+            if isinstance(res, Exception):
+                ctx.fail("variant:api-numpy-scalar-parameters:fails-%s" % type(res).__name__, {"error": str(res)[:300], "args": [repr(c["args"])[:120] for c in npm["commands"] if c["cmd"] not in ("EEMSRead",)][:4]})
+                return
     base_d = {n: arr.digest(a) for n, a in base.items()}
     for tag, vm in variants:
         res = _run_variant(ctx, vm, ctx.scratch(), tag, check_nodes=(tag in ("reversed", "extra-consumers")))
